@@ -9,6 +9,8 @@ import Resvg.Render.Layer
 import Resvg.Render.SizeBook
 import Resvg.Generated.RenderLimits
 import Resvg.Render.TurbSeed
+import Mathlib.Algebra.Order.Floor.Ring
+import Mathlib.Tactic.Positivity
 
 namespace Resvg.Props.C02
 open Resvg.Render Resvg.Render.IntRect
@@ -337,5 +339,125 @@ theorem C02_octaves_bounded (n : Rat) :
   · exact key n (by push_neg at h2; exact_mod_cast h2)
 
 example : storedOctaves 2147483648 = 255 ∧ storedOctaves (-1) = 0 ∧ storedOctaves 5 = 5 := by decide +kernel
+
+/-! ### feTurbulence: the noise stays bounded for any number of octaves
+
+The lattice coordinate doubles per octave.  `noise2` takes its fractional part as `t - trunc t`
+(fix: `t - (t as i64)` is no fraction once `t` exceeds 2^63, at about 60 octaves; the interpolation then
+produced infinities and NaN, and `f32_bound` asserted).  With a true fraction the cell interpolation is
+bounded by a constant, the octave sum by twice that, so the value handed to `f32_bound` is finite for
+every document. -/
+
+/-- `t - t.trunc()` -/
+def fracTrunc (t : Rat) : Rat := t - (if 0 ≤ t then (⌊t⌋ : Rat) else (⌈t⌉ : Rat))
+
+theorem fracTrunc_abs_lt_one (t : Rat) : |fracTrunc t| < 1 := by
+  unfold fracTrunc
+  split_ifs with h
+  · have h1 := Int.floor_le t
+    have h2 := Int.lt_floor_add_one t
+    rw [abs_lt]; constructor <;> linarith
+  · have h1 := Int.le_ceil t
+    have h2 := Int.ceil_lt_add_one t
+    rw [abs_lt]; constructor <;> linarith
+
+theorem abs_lerp_le (t a b : Rat) : |Render.lerp t a b| ≤ |a| + |t| * (|a| + |b|) := by
+  unfold Render.lerp
+  calc |a + t * (b - a)| ≤ |a| + |t * (b - a)| := abs_add_le _ _
+    _ = |a| + |t| * |b - a| := by rw [abs_mul]
+    _ ≤ |a| + |t| * (|a| + |b|) := by
+        have : |b - a| ≤ |a| + |b| := by
+          calc |b - a| ≤ |b| + |a| := abs_sub _ _
+            _ = |a| + |b| := add_comm _ _
+        nlinarith [abs_nonneg t]
+
+theorem abs_sCurve_le (t : Rat) (h : |t| < 1) : |Render.sCurve t| ≤ 5 := by
+  unfold Render.sCurve
+  have h0 := abs_nonneg t
+  have h1 : |t * t| ≤ 1 := by rw [abs_mul]; nlinarith
+  have h2 : |3 - 2 * t| ≤ 5 := by
+    rw [abs_le]; rw [abs_lt] at h; constructor <;> linarith
+  calc |t * t * (3 - 2 * t)| = |t * t| * |3 - 2 * t| := abs_mul _ _
+    _ ≤ 1 * 5 := by nlinarith [abs_nonneg (t * t), abs_nonneg (3 - 2 * t)]
+    _ = 5 := by norm_num
+
+theorem abs_dot_le (r s qx qy R S : Rat) (hr : |r| ≤ R) (hs : |s| ≤ S) (hx : |qx| ≤ 1) (hy : |qy| ≤ 1) :
+    |r * qx + s * qy| ≤ R + S := by
+  have hR : 0 ≤ R := le_trans (abs_nonneg r) hr
+  have hS : 0 ≤ S := le_trans (abs_nonneg s) hs
+  calc |r * qx + s * qy| ≤ |r * qx| + |s * qy| := abs_add_le _ _
+    _ = |r| * |qx| + |s| * |qy| := by rw [abs_mul, abs_mul]
+    _ ≤ R * 1 + S * 1 := by nlinarith [abs_nonneg r, abs_nonneg s, abs_nonneg qx, abs_nonneg qy]
+    _ = R + S := by ring
+
+/-- **one lattice cell is bounded by a constant**, whatever the coordinates, when the fractions are
+    fractions and the gradients are unit vectors (each component at most 1 in size) -/
+theorem C02_noise_cell_bounded (rx0 ry0 q00x q00y q10x q10y q01x q01y q11x q11y : Rat)
+    (hx : |rx0| < 1) (hy : |ry0| < 1)
+    (g1 : |q00x| ≤ 1) (g2 : |q00y| ≤ 1) (g3 : |q10x| ≤ 1) (g4 : |q10y| ≤ 1)
+    (g5 : |q01x| ≤ 1) (g6 : |q01y| ≤ 1) (g7 : |q11x| ≤ 1) (g8 : |q11y| ≤ 1) :
+    |Render.noiseCell rx0 ry0 q00x q00y q10x q10y q01x q01y q11x q11y| ≤ 2000 := by
+  unfold Render.noiseCell
+  simp only
+  have hx1 : |rx0 - 1| ≤ 2 := by rw [abs_le]; rw [abs_lt] at hx; constructor <;> linarith
+  have hy1 : |ry0 - 1| ≤ 2 := by rw [abs_le]; rw [abs_lt] at hy; constructor <;> linarith
+  have hsx := abs_sCurve_le rx0 hx
+  have hsy := abs_sCurve_le ry0 hy
+  have u1 := abs_dot_le rx0 ry0 q00x q00y 1 1 hx.le hy.le g1 g2
+  have v1 := abs_dot_le (rx0 - 1) ry0 q10x q10y 2 1 hx1 hy.le g3 g4
+  have u2 := abs_dot_le rx0 (ry0 - 1) q01x q01y 1 2 hx.le hy1 g5 g6
+  have v2 := abs_dot_le (rx0 - 1) (ry0 - 1) q11x q11y 2 2 hx1 hy1 g7 g8
+  have ha := abs_lerp_le (Render.sCurve rx0) (rx0 * q00x + ry0 * q00y) ((rx0 - 1) * q10x + ry0 * q10y)
+  have hb := abs_lerp_le (Render.sCurve rx0) (rx0 * q01x + (ry0 - 1) * q01y) ((rx0 - 1) * q11x + (ry0 - 1) * q11y)
+  have hA : |Render.lerp (Render.sCurve rx0) (rx0 * q00x + ry0 * q00y) ((rx0 - 1) * q10x + ry0 * q10y)| ≤ 27 := by
+    nlinarith [abs_nonneg (Render.sCurve rx0), abs_nonneg (rx0 * q00x + ry0 * q00y), abs_nonneg ((rx0 - 1) * q10x + ry0 * q10y)]
+  have hB : |Render.lerp (Render.sCurve rx0) (rx0 * q01x + (ry0 - 1) * q01y) ((rx0 - 1) * q11x + (ry0 - 1) * q11y)| ≤ 38 := by
+    nlinarith [abs_nonneg (Render.sCurve rx0), abs_nonneg (rx0 * q01x + (ry0 - 1) * q01y), abs_nonneg ((rx0 - 1) * q11x + (ry0 - 1) * q11y)]
+  have hc := abs_lerp_le (Render.sCurve ry0)
+    (Render.lerp (Render.sCurve rx0) (rx0 * q00x + ry0 * q00y) ((rx0 - 1) * q10x + ry0 * q10y))
+    (Render.lerp (Render.sCurve rx0) (rx0 * q01x + (ry0 - 1) * q01y) ((rx0 - 1) * q11x + (ry0 - 1) * q11y))
+  refine le_trans hc ?_
+  nlinarith [abs_nonneg (Render.sCurve ry0),
+    abs_nonneg (Render.lerp (Render.sCurve rx0) (rx0 * q00x + ry0 * q00y) ((rx0 - 1) * q10x + ry0 * q10y)),
+    abs_nonneg (Render.lerp (Render.sCurve rx0) (rx0 * q01x + (ry0 - 1) * q01y) ((rx0 - 1) * q11x + (ry0 - 1) * q11y))]
+
+/-- **the octave sum is bounded for any number of octaves** (255 after the cap, but the bound does not
+    depend on it): `|Σ_{k<n} noise_k / 2^k| ≤ 2 B − B / 2^(n−1)`, in particular `≤ 2 B` -/
+theorem C02_octave_sum_bounded (noise : Nat → Rat) (B : Rat) (hB : 0 ≤ B) (hn : ∀ k, |noise k| ≤ B) (n : Nat) :
+    |Render.octaveSum noise n| ≤ 2 * B - 2 * B / 2 ^ n := by
+  induction n with
+  | zero => simp [Render.octaveSum]
+  | succ k ih =>
+    unfold Render.octaveSum
+    have hp : (0 : Rat) < 2 ^ k := by positivity
+    have h1 : |noise k / 2 ^ k| ≤ B / 2 ^ k := by
+      rw [abs_div, abs_of_pos hp]
+      exact div_le_div_of_nonneg_right (hn k) hp.le
+    have h2 : (2 : Rat) ^ (k + 1) = 2 * 2 ^ k := by ring
+    calc |Render.octaveSum noise k + noise k / 2 ^ k|
+        ≤ |Render.octaveSum noise k| + |noise k / 2 ^ k| := abs_add_le _ _
+      _ ≤ (2 * B - 2 * B / 2 ^ k) + B / 2 ^ k := by linarith
+      _ = 2 * B - 2 * B / 2 ^ (k + 1) := by rw [h2]; field_simp; ring
+
+/-- **the value handed to `f32_bound` is finite**: with the sources' fraction and guarded normalisation
+    (both checked by the translator) every lattice cell of every octave is within the constant, and so is
+    `255 * sum` for any octave count -/
+theorem C02_turbulence_value_bounded (noise : Nat → Rat) (hn : ∀ k, |noise k| ≤ 2000) (n : Nat) :
+    Generated.noiseFractionIsTrunc = true ∧ Generated.gradientZeroGuard = true ∧
+    |Render.octaveSum noise n| ≤ 4000 := by
+  refine ⟨by decide, by decide, ?_⟩
+  have h := C02_octave_sum_bounded noise 2000 (by norm_num) hn n
+  have hp : (0 : Rat) < 2 ^ n := by positivity
+  have : (0 : Rat) ≤ 2 * 2000 / 2 ^ n := by positivity
+  linarith
+
+/-- the fraction as the code computed it before the fix, for a coordinate beyond the `i64` range:
+    `t - 2^63` is not a fraction (here `2^70 - 2^63`), and everything downstream grows with it -/
+theorem C02_old_fraction_unbounded :
+    let t : Rat := 2 ^ 70
+    let sat : Rat := 2 ^ 63 - 1           -- `t as i64` saturates at `i64::MAX`
+    1 < |t - sat| ∧ |fracTrunc t| < 1 := by
+  refine ⟨?_, fracTrunc_abs_lt_one _⟩
+  norm_num
 
 end Resvg.Props.C02
